@@ -232,6 +232,9 @@ def run_map_case(case):
                 elif src == "pairs":
                     m.update([(kk, exprs[ee]) for kk, ee in pairs])
                     model.update(dict(pairs))
+                elif src == "iterpairs":
+                    m.update(iter([(kk, exprs[ee]) for kk, ee in pairs]))
+                    model.update(dict(pairs))
                 elif src == "other":
                     ob = op.get("o", 0) % N_BI
                     m.update(bis[ob].symbolic_expressions)
@@ -312,7 +315,7 @@ def map_strategy():
         ops[f] = progs.op("m", f=st.just(f), b=b, k=k, e=e)
     ops["pop"] = progs.op("m", f=st.just("pop"), b=b, k=k, d=st.booleans())
     ops["eq"] = progs.op("m", f=st.just("eq"), b=b, o=b)
-    ops["update"] = progs.op("m", f=st.just("update"), b=b, o=b, items=items, src=st.sampled_from(["dict", "pairs", "other", "self"]))
+    ops["update"] = progs.op("m", f=st.just("update"), b=b, o=b, items=items, src=st.sampled_from(["dict", "pairs", "iterpairs", "other", "self"]))
     ops["assign"] = progs.op("m", f=st.just("assign"), b=b, o=b, items=items, src=st.sampled_from(["dict", "other", "copy"]))
     ops["assign-self"] = progs.op("m", f=st.just("assign-self"), b=b)
     init = st.lists(st.lists(st.tuples(k, e).map(list), max_size=4), min_size=N_BI, max_size=N_BI)
